@@ -174,3 +174,50 @@ fix_output_other = REG.add(Contract(
             "AssertionError": lambda S, a: S.true, "ValueError:runs": lambda S, a: S.true},
     calls=dict(_CALLS, **{"strax.dict_to_rec": _dict_to_rec}),
 ))
+
+
+# --------------------------------------------------------------------------------------
+# DownChunkingPlugin._fix_output (generator; single-output plugin): only well-labelled chunks are passed on
+# --------------------------------------------------------------------------------------
+import z3 as _z3  # noqa: E402
+from pyvc.engine import V as _V, St as _St, Exc as _Exc  # noqa: E402
+
+FD = "strax/plugins/down_chunking_plugin.py"
+
+
+def _dc_transform(eng, args, kw, st, fr, k, node):
+    """self.superrun_transformation(_result, superrun, subruns) (its own contract: C14)"""
+    out = eng.fresh("transformed", "V")
+    g = dict(st.ghost)
+    g["passed_on"] = eng.to_v(args[-3])
+    return k(Opq(out), _St(st.env, st.heap, st.pc, g))
+
+
+def _dc_zip(eng, args, kw, st, fr, k, node):
+    from pyvc.engine import PyZip
+    if all(isinstance(x, (list, tuple)) for x in args):
+        return k(PyZip(list(args)), st)
+    return k(Opq(_z3.Function("fn:zip", _V, _V, _V)(eng.to_v(args[0]), eng.to_v(args[1]))), st)
+
+
+def _dc_yields(S, a, v):
+    item = a.ghost.passed_on
+    is_dict = S.is_instance(item, "dict")
+    return [("what is passed on is the item the computation just yielded", S.eq(item, S.v(a._result))),
+            ("a bare item that is passed on is a strax.Chunk labelled with the plugin's data type",
+             S.Implies(S.Not(is_dict), S.And(S.is_instance(item, "strax.Chunk"),
+                                             S.eq(S.attr(item, "data_type"), S.getitem(S.attr(a.self, "provides"), 0)),
+                                             S.Not(S.truthy(S.attr(a.self, "multi_output"))))))]
+
+
+down_chunk_fix_output = REG.add(Contract(
+    FD, "DownChunkingPlugin._fix_output",
+    params=dict(self="V", result="V", start="V", end="V", superrun="V", subruns="V", _dtype="V"),
+    ensures=lambda S, a, r: [("the computation's result was a generator", S.is_instance(a.result, "Generator"))],
+    raises={"ValueError": lambda S, a: S.true, "Any": lambda S, a: S.true},
+    yields=_dc_yields,
+    ghost={"passed_on": _z3.Const("nothing_passed_on", _V)},
+    calls={"self.superrun_transformation": _dc_transform, "zip": _dc_zip},
+    loops={1: Loop(lambda S, a: []), 2: Loop(lambda S, a: [])},
+    loop_ghost={1: ["passed_on"], 2: []},
+))
